@@ -125,6 +125,14 @@ fn emulated(n: c_int, ctx: u32) -> (End, String) {
                     return 22;
                 }
             }
+            5 => {
+                // the signal is currently ignored (nohup, background job, SIGPIPE in every Rust program): the emulation
+                // must still do what the DEFAULT disposition would do
+                unsafe { libc::signal(n, libc::SIG_IGN) };
+                if signal_hook::low_level::emulate_default_handler(n).is_err() {
+                    return 10;
+                }
+            }
             _ => {
                 // multi-threaded process, emulation on a thread that is not the main one
                 let h = std::thread::spawn(move || signal_hook::low_level::emulate_default_handler(n).is_err());
@@ -187,7 +195,7 @@ pub fn main(args: &[String]) -> i32 {
         }
         let nat = if (1..=64).contains(&n) && n != 32 && n != 33 { Some(classify(&native(n))) } else { None };
         probes += nat.is_some() as u64;
-        for ctx in 0..5u32 {
+        for ctx in 0..6u32 {
             if ctx == 1 && (n == libc::SIGKILL || n == libc::SIGSTOP || !(1..=64).contains(&n) || n == 32 || n == 33) {
                 continue;
             }
@@ -198,7 +206,7 @@ pub fn main(args: &[String]) -> i32 {
                 inconclusive = Some(format!("probe for signal {} ctx {} timed out", n, ctx));
                 continue;
             }
-            let label = format!("signal {} ({}) context {}", n, name.unwrap_or("unnamed"), ["plain", "inside-own-action", "blocked", "other-signal-blocked-and-pending", "on-a-non-main-thread"][ctx as usize]);
+            let label = format!("signal {} ({}) context {}", n, name.unwrap_or("unnamed"), ["plain", "inside-own-action", "blocked", "other-signal-blocked-and-pending", "on-a-non-main-thread", "currently-ignored"][ctx as usize]);
             match name {
                 Some(_) => {
                     let want = nat.clone().unwrap_or(Outcome::Other("no native probe".into()));
@@ -221,6 +229,35 @@ pub fn main(args: &[String]) -> i32 {
             if rows.len() < 12 && (ctx == 1 || n == libc::SIGTSTP || n == libc::SIGIO) {
                 rows.push(J::s(&format!("{} -> emulated {:?}, native {:?}", label, emu, nat)));
             }
+        }
+    }
+    // ---- the conditional-default registration must refuse unknown signals without leaving anything behind
+    for n in (1..=64).chain([0, -1, 65, 128]) {
+        if signal_hook::low_level::signal_name(n).is_some() || n == 32 || n == 33 {
+            continue;
+        }
+        let r = fork::probe(10_000, false, move |fd| {
+            let before = dispositions();
+            let flag = std::sync::Arc::new(std::sync::atomic::AtomicBool::new(true));
+            let res = signal_hook::flag::register_conditional_default(n, flag.clone());
+            if res.is_ok() {
+                fork::wr(fd, "ACCEPTED\n");
+            }
+            if dispositions() != before {
+                fork::wr(fd, "DISPOSITION-CHANGED\n");
+            }
+            if std::sync::Arc::strong_count(&flag) != 1 {
+                fork::wr(fd, "FLAG-KEPT\n");
+            }
+            0
+        });
+        probes += 1;
+        keys.insert(format!("cond-default:{}", n));
+        if r.out.contains("ACCEPTED") {
+            bad.push((format!("unknown-signal-not-refused-{}", n), format!("register_conditional_default({}) accepted a signal the library has no name for", n)));
+        }
+        if r.out.contains("DISPOSITION-CHANGED") || r.out.contains("FLAG-KEPT") {
+            bad.push((format!("unknown-signal-side-effect-{}", n), format!("register_conditional_default({}) returned an error but left something behind: {}", n, r.out.replace('\n', " "))));
         }
     }
     let mut nviol = 0;
